@@ -204,7 +204,7 @@ PROPS = {
          'serialised with the legacy serializer, driven through the exported namespace translator on GetWorkflowExecutionRawHistoryV2Response (same '
          'kinds of corruption; namespace matches present/absent); the Lean blobTranslate predicts result/matched/log line; monitor: accepted blobs '
          'are only translated, repairable ones decode to the translated standard decode of the sanitised copy, and a rejected blob never passes '
-         'without an error (fires: known finding C17-blob-unrepairable-passed-silently). Non-trivial = input with invalid UTF-8 somewhere; distinct '
+         'without an error (this monitor found the since-repaired finding C17-blob-unrepairable-passed-silently). Non-trivial = input with invalid UTF-8 somewhere; distinct '
          'by input bytes.',
  'assumptions': ['protobuf-go, gogo/protobuf and the legacy round trip are libraries: modelled as stage outcomes, validated on every run '
                  '(proto.Equal against the sanitised copy)',
